@@ -113,7 +113,7 @@ enqueue it again; the run is calm and the loops agree -/
 example :
     calmRun exDup 10 (minit [] exDupInit) = true ∧
     ids (mrun exDup 10 (minit [] exDupInit)).done = ids (grun exDup 10 (ginit [] exDupInit)).done ∧
-    ids (grun exDup 10 (ginit [] exDupInit)).done = [2, 2, 1, 1, 3, 1, 1] := by
+    ids (grun exDup 10 (ginit [] exDupInit)).done = [2, 2, 2, 1, 1, 3, 1, 1] := by
   decide +kernel
 
 /-- On a calm run both loops run out of work at the same moment: after `n` dispatches the default loop has
